@@ -55,6 +55,9 @@ def gen_spec(rng, thorough=False, force=None):
 	kind, n, pedges = gen_topology(rng, nmax)
 	if 'kind' in force and force['kind'] == 'serial':
 		kind = 'serial'; n = rng.randint(1, nmax); pedges = [(i, i + 1) for i in range(n - 1)]
+	if 'kind' in force and force['kind'] == 'distribution':
+		# a rooted out-tree (every node has at most one supplier): one warehouse and its retailers, possibly over several levels
+		kind = 'distribution'; n = rng.randint(3, nmax); pedges = [(rng.randrange(i) if rng.random() < .5 else 0, i) for i in range(1, n)]
 	T = rng.randint(3, 40 if thorough and rng.random() < .2 else 12)
 	perm = list(range(n)); rng.shuffle(perm)                 # network.nodes order is a random permutation
 	pool = rng.sample(range(1, 30), n)
@@ -682,6 +685,15 @@ def oracle_disruptions(spec, tr):
 					if nxt['is'] != ed['ispl'][0] + same_period:
 						bad.append('t=%d node%d is transit-paused, yet in period %d it received %s on edge%d%s (frozen pipeline allows %s)' % (
 							t, b, t + 1, nxt['is'], e, edges[e], ed['ispl'][0] + same_period))
+		# SP, the other half: the units withheld for a shipment-paused customer are shipped as soon as the pause is over -- at the end of a period in
+		# which the customer is not shipment-paused nothing is held for it any more (whether or not it ordered anything in that period)
+		for e, (a, b) in enumerate(edges):
+			if a is None or b is None:
+				continue
+			ndb = spec['nodes'][str(labels[b])]
+			paused = bool(ndb['dis'] and ndb['dis']['type'] == 'SP' and st['nodes'][b]['disrupted'])
+			if not paused and st['edges'][e]['odi'] != 0:
+				bad.append('t=%d edge%d%s: %s units are still withheld for node%d although it is not shipment-paused in this period' % (t, e, edges[e], st['edges'][e]['odi'], b))
 		if len(bad) > 8:
 			break
 	return bad
